@@ -22,8 +22,8 @@ MANIFEST = dict(
     design_ref="3.3, 4 (C10), 6, Appendix G / G.2",
     note="trusted: TLC, sqlite3 cursor semantics (fetchmany(0) on the raw DBAPI cursor excluded: driver returns all rows); bounded rows/"
          "depth; one filtered view per walk; yield_per on ChunkedIteratorResult only before the first fetch (code comment: cannot change "
-         "afterwards); held iterators across other calls not modelled; 3 known findings (view unique() memo, FullyBuffered fetchmany(0), "
-         "MergedResult close)",
+         "afterwards); 5 known findings (view unique() memo, FullyBuffered fetchmany(0), MergedResult close - fixed in /repo meanwhile; "
+         "iterator held across close/exhaustion on cursor-backed and iterator-backed results)",
     technique="TLA+ spec (ResultCursor.tla) + TLC exhaustive model checking per family/scenario; spec->code replay of every state-graph "
               "edge into real Result objects (pure Python) and into the compiled binaries (default strategy)")
 
@@ -40,9 +40,11 @@ SCEN = {
     "shape": (["FetchOne", "FetchMany", "Partitions", "All", "Unique", "Columns", "Tuples", "YieldPer", "Scalar"], [], ALLSZ, {0, 2, 99}),
     "shapev": (["FetchOne", "YieldPer", "Scalars", "Unique"], ["FetchMany", "Partitions", "All", "YieldPer", "Next"], {0, 1, 99}, {2, 99}),
     "compose": (["FetchOne", "FetchMany", "All", "Unique", "Freeze", "Merge", "One", "Columns"], [], {1, 99}, {2}),
+    "iterhold": (["Iter", "ItNext", "FetchOne", "FetchMany", "All", "First", "Close", "Unique", "Scalars"], ["Iter", "FetchMany", "All", "Unique"],
+                 {1, 99}, {2}),
     "unhash": (["FetchOne", "FetchMany", "All", "Unique", "One", "Scalars", "Columns"], ["FetchMany", "All", "Next", "Unique"], {2, 99}, {2}),
 }
-FOOTPRINT = ["FetchOne", "Next", "IterStep", "FetchMany", "Partitions", "All", "First", "One", "OneOrNone", "Scalar", "ScalarOne",
+FOOTPRINT = ["FetchOne", "Next", "IterStep", "Iter", "ItNext", "FetchMany", "Partitions", "All", "First", "One", "OneOrNone", "Scalar", "ScalarOne",
              "ScalarOneOrNone", "Unique", "Close", "YieldPer", "Scalars", "Mappings", "Tuples", "Columns", "Freeze", "Merge"]
 ALL_IMPLS = ["iter", "chunk", "frozen", "merged", "cursor", "cursor_json", "cursor_merged", "stream1", "stream2", "stream3", "streamg", "full"]
 
@@ -58,6 +60,7 @@ def tier_plan(quick):
             ("shapev", 2, 4, 2, ["iter", "cursor", "stream1"], False),
             ("compose", 2, 4, 2, ["iter", "chunk", "cursor", "full"], False),
             ("unhash", 2, 3, 2, ["iter", "cursor_json"], True),
+            ("iterhold", 2, 4, 2, ["iter", "merged", "cursor", "stream2", "full"], False),
         ]
     return [
         ("fetch", 4, 6, 3, ALL_IMPLS, False),
@@ -68,6 +71,8 @@ def tier_plan(quick):
         ("shapev", 3, 4, 2, ["iter", "chunk", "cursor", "cursor_json", "stream1", "stream2", "full"], False),
         ("compose", 3, 4, 2, ["iter", "chunk", "frozen", "merged", "cursor", "cursor_json", "stream2", "streamg", "full"], False),
         ("unhash", 3, 4, 2, ["iter", "frozen", "cursor_json"], True),
+        ("iterhold", 3, 4, 2, ["iter", "chunk", "frozen", "merged", "cursor", "cursor_json", "cursor_merged", "stream1", "stream2", "streamg",
+                               "full"], False),
     ]
 
 
@@ -274,6 +279,6 @@ def main(chk):
         assumptions=["SQLite/sqlite3 only; raw DBAPI cursor.fetchmany(0) (returns all rows in sqlite3) excluded for the default strategy",
                      "rows are pairs over a 2-value domain (2-3 distinct rows, duplicates by construction); unhashable values as JSON lists",
                      "one filtered view per walk; base yield_per() only before a view exists; ChunkedIteratorResult.yield_per only before "
-                     "the first fetch; iterators are not held across other calls",
+                     "the first fetch; a held iterator is dropped when its Result is re-generated (unique/columns/yield_per)",
                      "bounds (scenario, max rows, calls per walk, distinct rows, implementations): %s" % json.dumps(
                          [(s_, r_, d_, n_, len(i_)) for s_, r_, d_, n_, i_, _ in plan])])
